@@ -15,11 +15,15 @@ def _one(args):
     seed, i, nruns = args
     import_repo()
     rnd = random.Random(seed * 15485863 + i)
-    for attempt in range(50):
-        n_el = rnd.randint(2, 7)
+    for attempt in range(3000):
+        n_el = rnd.randint(2, 7) if i % 6 not in (2, 5) else rnd.randint(4, 7)
         elems = solver_gen.random_chain(rnd, n_el, want_selflock=False, stress=False)
-        if any(e['kind'] in ('WormGear',) for e in elems[1:]) and rnd.random() < 0.7:
-            continue                                    # mostly gear trains; worm stages only when not self-locking
+        rev = any(e['kind'] == 'WormGear' and e['rel']['type'] == 'worm' for e in elems[1:])      # a wheel that drives a worm
+        fwd = any(e['kind'] == 'WormWheel' and e['rel']['type'] == 'worm' for e in elems[1:])     # a worm that drives a wheel
+        if i % 6 == 5 and not rev or i % 6 == 2 and not fwd:
+            continue                                    # a fixed share of the instances has a worm stage of either orientation
+        if i % 6 not in (2, 5) and any(e['kind'] in ('WormGear',) for e in elems[1:]) and rnd.random() < 0.7:
+            continue                                    # the rest: mostly gear trains; worm stages only when not self-locking
         m = elems[0]
         # an efficiency sweep on a live model: in a third of the cases one gear mating is re-declared with another efficiency AFTER the
         # Solver exists and before it runs (the closed form is that of the chain as declared at run time)
